@@ -16,7 +16,7 @@ INST_MAX_NS = (IMAX + 1) * NPD - 1
 
 META = {
     "property": "C03",
-    "proof_modules": ["PyodaProofs.C03", "PyodaProofs.GenAgreeC03"],
+    "proof_modules": ["PyodaProofs.C03", "PyodaProofs.Decimal", "PyodaProofs.GenAgreeC03"],
     "drivers": ["drv_elapsed"],
     "theorems": [
         "Pyoda.C03.fromUnits_exact", "Pyoda.C03.fromUnits_raises_iff", "Pyoda.C03.fromNanoseconds_exact",
@@ -28,6 +28,9 @@ META = {
         "Pyoda.C03.toUnixSeconds_floor", "Pyoda.C03.fromUnixSeconds_toUnixSeconds", "Pyoda.C03.instant_plus_exact",
         "Pyoda.C03.instant_plus_raises_iff", "Pyoda.C03.instant_minus_exact", "Pyoda.C03.safePlus_spec",
         "Pyoda.C03.offset_add_exact", "Pyoda.C03.offset_fromUnit_trunc",
+        # the Decimal-based _towards_zero_division: full model of the 28-digit arithmetic, exact below 10^27
+        "Pyoda.Decimal.pyTdivFull_exact", "Pyoda.Decimal.pyTdiv_refines_full", "Pyoda.Decimal.pyTdiv_zero_divisor",
+        "Pyoda.Decimal.tdivMag_exact", "Pyoda.Decimal.no_carry", "Pyoda.Decimal.lt_pow_digits", "Pyoda.Decimal.pow_digits_le",
         # agreement of the definitions generated from the Python source (tools/py2lean.py) with the model
         "Pyoda.GenAgree.C03.gen_ticksToDaysAndTickOfDay_eq", "Pyoda.GenAgree.C03.gen_daysAndTickOfDayToTicks_eq",
         "Pyoda.GenAgree.C03.gen_boundedDaysAndTickOfDayToTicks_eq", "Pyoda.GenAgree.C03.gen_Duration_ctor_eq",
@@ -94,7 +97,11 @@ META = {
         "Pyoda.GenAgree.C03.gen_LocalInstant_lt_eq",
     ],
     "trusted_base": [
-        "CPython int arithmetic; decimal division exact for operands below 10^27 (sampled by suite prelude.tdiv)",
+        "CPython int arithmetic; _towards_zero_division = int((Decimal(x)/Decimal(y)).quantize(0, ROUND_DOWN)) is modelled IN FULL "
+        "(PyodaModel/Decimal.lean: 28 significant digits, half-even, InvalidOperation beyond 28 integer digits) and tied to CPython's decimal "
+        "module by the ops `tdivfull` on operands of any size (carry of 0.99..9 into the integer part, half-even ties of 28-digit quotients, "
+        "over-long quotients); that it is exact truncation for operands below 10^27 - the domain on which the models use it as `pyTdiv` - is the "
+        "theorem Decimal.pyTdivFull_exact (no longer an assumption), and pyTdiv_refines_full says pyTdiv answers only what the full model answers",
         "translator tools/py2lean.py (second tie, besides the sampled correspondence): every member of Duration, Instant, _LocalInstant, Offset and "
         "_TickArithmetic listed under C03 in tools/py2lean_targets.py is re-translated from the current Python source on each run into "
         "lean/PyodaGen/C03.lean and proved equal to the hand-written model for all inputs (PyodaProofs/GenAgreeC03.lean). Trusted there: "
@@ -143,6 +150,9 @@ def impl(t):
     op = t[0]
     a = [int(x) for x in t[1:] if x.lstrip("-").isdigit()]
     if op == "tdiv":
+        from pyoda_time.utility._csharp_compatibility import _towards_zero_division
+        return str(_towards_zero_division(a[0], a[1]))
+    if op == "tdivfull":
         from pyoda_time.utility._csharp_compatibility import _towards_zero_division
         return str(_towards_zero_division(a[0], a[1]))
     if op == "cmod":
@@ -531,10 +541,38 @@ def gen_ops(ctx, n):
         if rng.random() < 0.3:
             k = rng.randint(-10**12, 10**12)
             ops.append(f"tdiv {k * y + rng.choice([0, 1, -1])} {y}")
+        ops.extend(gen_tdivfull(rng))
         ops.append(f"cmod {rng.randint(-10**15, 10**15)} {rng.choice([60, 1000, 10**7, 10**9, NPD, 7, rng.randint(1, 10**6)])}")
         ops.append(f"i32 {rng.randint(-2**34, 2**34)}")
         ops.append(f"i64 {rng.randint(-2**66, 2**66)}")
     return ops
+
+
+def gen_tdivfull(rng):
+    """operands of ANY size for the full Decimal model of _towards_zero_division (model op tdivfull): exact
+    multiples +-1, fractions 0.999... that the 28-digit rounding carries into the integer part, 28-digit
+    quotients at the half-even tie, quotients of more than 28 digits (InvalidOperation), zero divisors"""
+    c = rng.random()
+    if c < 0.3:
+        y = rng.choice([1, 2, 3, 7, 10, 100, NPD, rng.randint(1, 10**rng.randint(1, 40))]) * rng.choice([1, -1])
+        k = rng.randint(0, 10**rng.randint(1, 30))
+        x = k * y + rng.choice([0, 1, -1, y - 1, y // 2, y // 2 + 1, rng.randint(-abs(y), abs(y))])
+    elif c < 0.55:
+        x = rng.randint(-10**rng.randint(1, 60), 10**rng.randint(1, 60))
+        y = rng.randint(-10**rng.randint(1, 60), 10**rng.randint(1, 60))
+    elif c < 0.8:
+        y = 10**rng.randint(20, 40) + rng.randint(-5, 5)
+        k = rng.randint(0, 10**rng.randint(0, 29))
+        x = (k + 1) * y - rng.randint(1, 10**rng.randint(0, 12))
+        if rng.random() < 0.5:
+            x = -x
+    elif c < 0.97:
+        y = 2 * rng.randint(1, 10**5)
+        k = rng.randint(10**27, 10**28 - 1)
+        x = k * y + y // 2 + rng.choice([0, 1, -1])
+    else:
+        x, y = rng.choice([0, 1, -1, 10**30]), 0
+    return [f"tdivfull {x} {y}"]
 
 
 def run(ctx):
